@@ -716,6 +716,61 @@ func TestC19(t *testing.T) {
 		rec.Sample("static", map[string]any{"registered": len(names), "declared": len(decl), "first": names[0], "last": names[len(names)-1]})
 	}
 
+	// storm sweep: every registered type once (the drawn storms pick a main number by type, so a main number with a
+	// single type came up once in 1700 plans): 6 goroutines decode, encode and render their own payloads in their own
+	// instances of that one type; under the race detector (job race) any state the instances share is reported at the
+	// first overlap, without it the values are compared with what the decode yields alone
+	for i, name := range names {
+		if !rec.Env.Mine(i + 1) {
+			continue
+		}
+		ti, _ := typeByName(name)
+		n := ti.WireL
+		if n <= 0 {
+			n = 9
+		}
+		var cands [][]byte
+		for k := 0; k < 24; k++ {
+			p := make([]byte, n)
+			for j := 1; j < n; j++ {
+				p[j] = byte((k+1)*(j*37+11)) & map[bool]byte{true: 0x7f, false: 0xff}[ti.WireL <= 0]
+			}
+			if n == 1 {
+				p[0] = byte(k*5+1) & 0x3f
+			}
+			if ti.WireL <= 0 {
+				p[n-1] = 0
+			}
+			if ti.WireL == 7 {
+				p[6] &= 0x0f
+			}
+			cands = append(cands, p)
+		}
+		var good []string
+		for _, p := range cands {
+			if d, ok := dpt.Produce(name); ok && d.Unpack(p) == nil && len(good) < 12 {
+				good = append(good, hx(p))
+			}
+		}
+		if len(good) < 2 {
+			good = append(good, hx(make([]byte, n)), hx(cands[0]))
+		}
+		reps := 150
+		if !(rec.Env.Job == "race") {
+			reps = 1500
+		}
+		plan := c19Plan{Mode: "storm"}
+		for g := 0; g < 6; g++ {
+			plan.Ops = append(plan.Ops, []c19Op{{Op: "produce", Name: name, H: reps}, {Op: "unpack", Hex: good[(2*g)%len(good)]}, {Op: "unpack", Hex: good[(2*g+1)%len(good)]}})
+		}
+		rec.Eval(1)
+		rec.NonTrivialEnum(1)
+		rec.ClassN("storm-sweep-decodes", int64(6*2*reps))
+		if f := common.Guard(func() *common.Fail { return c19Run(plan) }); f != nil {
+			common.Report(t, rec, f, plan)
+		}
+	}
+
 	concurrent := rec.Env.Job == "race"
 	alpha := []byte{0x00, 0x01, 0x3f, 0x40, 0x7f, 0x80, 0xff}
 	genPayload := func(rt *rapid.T, ti typeInfo) string {
